@@ -734,12 +734,15 @@ class PandasModelBase(
                             res[value_name] = opk.args[0].value
                     else:
                         raise ValueError("opk must be a ColumnReference or Value")
-            ascending = [c not in set(op.reverse) for c in col_list]
+            ascending = [c not in set(op.reverse) for c in order_cols]
             subframe = self.clean_copy(res[col_list])
             subframe["_data_algebra_orig_index"] = subframe.index
             if len(order_cols) > 0:
+                # order by partition and order columns only (ties keep the incoming row order)
                 subframe = self.clean_copy(
-                    subframe.sort_values(by=col_list, ascending=ascending)
+                    subframe.sort_values(
+                        by=order_cols, ascending=ascending, kind="stable"
+                    )
                 )
             subframe[standin_name] = 1
             if len(op.partition_by) > 0:
